@@ -254,6 +254,9 @@ let run_case cid t h v ops =
       | ["feed"] ->
         let hx l = if l = [] then "-" else hex_of_bytes l in
         Printf.printf "%s feed t=%s a=%s\n" cid (hx (tfeed dt)) (hx (align_feed dt))
+      | ["sfeed"] ->
+        let hx l = if l = [] then "-" else hex_of_bytes l in
+        Printf.printf "%s sfeed t=%s a=%s\n" cid (hx (tfeed t)) (hx (align_feed t))
       | ["schema"] ->
         let rs = schema_of evs in
         if out = SDone then
